@@ -282,3 +282,6 @@ func sortedKeys[V any](m map[string]V) []string {
 	sort.Strings(ks)
 	return ks
 }
+
+// fault counts an injected fault that actually fired (evidence: faults_fired).
+func (w *world) fault(kind string) { w.res.Faults[kind]++ }
